@@ -46,6 +46,7 @@ type scheduler struct {
 	overBudget bool
 	clock      int64
 	dumpBuf    []byte
+	stuck      string
 }
 
 func futexWait(addr *int32, val int32, timeoutNs int64) {
@@ -111,7 +112,10 @@ func (s *scheduler) park(t *schedTask, site string) {
 	s.sword++
 	futexWake(&s.sword)
 	for t.word == 0 {
-		futexWait(&t.word, 0, 0)
+		if s.aborted {
+			break
+		}
+		futexWait(&t.word, 0, int64(20*time.Millisecond))
 	}
 	t.word = 0
 	t.state = tsRunning
@@ -179,6 +183,38 @@ func (s *scheduler) goroutineBlocked(gid uint64) (bool, string) {
 	return false, st
 }
 
+// stuckReport describes the task goroutines that neither parked nor finished (for the watchdog message).
+func (s *scheduler) stuckReport() string {
+	buf := make([]byte, 4<<20)
+	n := runtime.Stack(buf, true)
+	dump := string(buf[:n])
+	var out []string
+	for _, t := range s.tasks {
+		head := fmt.Sprintf("goroutine %d [", t.gid)
+		i := strings.Index(dump, head)
+		if i < 0 {
+			out = append(out, fmt.Sprintf("task %d state=%d: goroutine gone", t.id, t.state))
+			continue
+		}
+		rest := dump[i:]
+		if e := strings.Index(rest, "\n\n"); e >= 0 {
+			rest = rest[:e]
+		}
+		lines := strings.Split(rest, "\n")
+		var fr []string
+		for _, l := range lines[1:] {
+			if !strings.HasPrefix(l, "\t") && len(fr) < 14 {
+				if k := strings.Index(l, "("); k > 0 {
+					l = l[:k]
+				}
+				fr = append(fr, l[strings.LastIndex(l, "/")+1:])
+			}
+		}
+		out = append(out, fmt.Sprintf("task %d state=%d %s: %s", t.id, t.state, lines[0], strings.Join(fr, " < ")))
+	}
+	return strings.Join(out, " || ")
+}
+
 // abort gives up control: yields become no-ops and every parked task is released.
 //
 //go:norace
@@ -221,6 +257,7 @@ func (s *scheduler) run() bool {
 				}
 			}
 			if time.Since(lastChange) > 60*time.Second {
+				s.stuck = s.stuckReport()
 				s.abort()
 				return false
 			}
@@ -235,6 +272,7 @@ func (s *scheduler) run() bool {
 					}
 				}
 				if time.Since(lastChange) > 60*time.Second {
+					s.stuck = s.stuckReport()
 					s.abort()
 					return false
 				}
